@@ -115,6 +115,7 @@ type runner struct {
 	regIDs  map[string]int64
 	namer   *PubNamer
 	env     *canonEnv
+	histCfgs map[string][]*router.TopicEventHistoryConfig
 }
 
 func (r *runner) sidOf(idx int) wamp.ID {
@@ -142,9 +143,20 @@ func (run *runner) realmConfig(i int) *router.RealmConfig {
 		MetaStrict: rc.MetaStrict, EnableMetaKill: rc.Kill, EnableMetaModify: rc.Modify,
 		RequireLocalAuthz: rc.LocalAuthz,
 	}
-	for _, h := range rc.Hist {
-		c.TopicEventHistoryConfigs = append(c.TopicEventHistoryConfigs, &router.TopicEventHistoryConfig{Topic: wamp.URI(h.Topic), MatchPolicy: h.Match, Limit: h.Limit})
+	// Realms built from one configuration share the configuration objects, as
+	// realms created from a RealmTemplate do.
+	key := fmt.Sprintf("%+v", rc.Hist)
+	if run.histCfgs == nil {
+		run.histCfgs = map[string][]*router.TopicEventHistoryConfig{}
 	}
+	if _, ok := run.histCfgs[key]; !ok {
+		var l []*router.TopicEventHistoryConfig
+		for _, h := range rc.Hist {
+			l = append(l, &router.TopicEventHistoryConfig{Topic: wamp.URI(h.Topic), MatchPolicy: h.Match, Limit: h.Limit})
+		}
+		run.histCfgs[key] = l
+	}
+	c.TopicEventHistoryConfigs = run.histCfgs[key]
 	if len(rc.Rules) > 0 {
 		c.Authorizer = &tableAuthz{rules: rc.Rules, run: run}
 	}
@@ -344,9 +356,9 @@ func (run *runner) exec(or *OpResult, res *ImplRun) {
 	case "rmrealm":
 		run.rt.RemoveRealm(realmURI(op.Realm))
 	case "addrealm":
-		if err := run.rt.AddRealm(run.realmConfig(op.Realm)); err != nil {
-			or.Failed = "AddRealm: " + err.Error()
-		}
+		// AddRealm of a realm that exists must fail and change nothing (the
+		// model's RAddRealm is a no-op then); the error itself is not compared
+		_ = run.rt.AddRealm(run.realmConfig(op.Realm))
 	case "msg":
 		c := run.clients[op.Sess]
 		if c == nil || c.dropped || isClosed(c) {
